@@ -263,7 +263,7 @@ class GroupedList(list):
             if any(is_equal(value, elt) for elt in values)
         ]
 
-        if any(found):
+        if len(found) > 0:
             return found[0]
 
         return value
